@@ -5,6 +5,8 @@ import (
 	"fmt"
 	"hash/fnv"
 	"math/big"
+	"runtime"
+	"runtime/debug"
 
 	"github.com/db47h/decimal"
 
@@ -469,6 +471,13 @@ func genAddSub(r *hx.RNG, l hx.Limits) *opCase {
 	k.hugeOK = true
 	k.attrs(r)
 	return k
+}
+
+// releaseHuge returns the memory of a directed multi-gigabyte case to the system before the next case runs (several of
+// them may follow one another in a thorough run, and each child process has an address-space limit).
+func releaseHuge() {
+	runtime.GC()
+	debug.FreeOSMemory()
 }
 
 func minI64(a, b int64) int64 {
